@@ -31,8 +31,6 @@ import (
 	"github.com/smart-core-os/sc-golang/internal/verifhook"
 	"github.com/smart-core-os/sc-golang/pkg/resource"
 	"github.com/smart-core-os/sc-golang/verifharness/lib"
-
-	"google.golang.org/protobuf/proto"
 )
 
 type subCfg struct {
@@ -48,7 +46,8 @@ type subCfg struct {
 type multiSession struct {
 	Kind    string   `json:"kind"` // "multi"
 	Equiv   string   `json:"equiv,omitempty"`
-	Wide    bool     `json:"wide,omitempty"` // two-field messages (read masks strip one field)
+	Wide    bool     `json:"wide,omitempty"`           // two-field messages (read masks strip one field)
+	Icpt    string   `json:"id_interceptor,omitempty"` // "lower": see session.Icpt
 	NBefore int      `json:"n_before"`
 	Ops     []string `json:"ops"`  // burst 0 is the fence alone; burst j >= 1 is Ops[NBefore+j-1] then a fence
 	Subs    []subCfg `json:"subs"` // in subscription order (After ascending)
@@ -62,7 +61,7 @@ const settleWait = 300 * time.Microsecond
 func (ms multiSession) subSession(k int) session {
 	sc := ms.Subs[k]
 	s := session{Kind: "pull", Pred: sc.Pred, BP: sc.BP, Mask: sc.Mask, Equiv: ms.Equiv, UpdatesOnly: sc.UpdatesOnly,
-		Wide: ms.Wide, Ops: ms.Ops, NBefore: ms.NBefore}
+		Wide: ms.Wide, Icpt: ms.Icpt, Ops: ms.Ops, NBefore: ms.NBefore}
 	na := len(ms.Ops) - ms.NBefore
 	if sc.After == 0 {
 		s.Bursts = append(s.Bursts, 0)
@@ -101,14 +100,7 @@ func (sr *subRun) consume() {
 // run executes the session on the real code: per subscriber, the observations of its bursts (from the
 // burst at which it joined).
 func (ms multiSession) run() [][]burstObs {
-	var copts []resource.Option
-	if ms.Equiv != "" {
-		kind := ms.Equiv
-		copts = append(copts, resource.WithEquivalence(resource.ComparerFunc(func(x, y proto.Message) bool {
-			return equivTok(kind, tokOf(x), tokOf(y))
-		})))
-	}
-	c := resource.NewCollection(copts...)
+	c := resource.NewCollection(collectionOpts(ms.Equiv, ms.Icpt)...)
 	for _, op := range ms.Ops[:ms.NBefore] {
 		_ = applyOp(c, op)
 	}
@@ -276,6 +268,9 @@ func (ms multiSession) monitor(m sink, per [][]burstObs) {
 	if ms.Equiv != "" {
 		m.Count("collection with an equivalence")
 	}
+	if ms.Icpt != "" {
+		m.Count("shared collection with an id interceptor")
+	}
 	masks, preds, bps := map[string]bool{}, map[string]bool{}, map[bool]bool{}
 	for _, sc := range ms.Subs {
 		masks[sc.Mask], preds[sc.Pred.token()], bps[sc.BP] = true, true, true
@@ -325,6 +320,9 @@ func (ms multiSession) driverLines() (lines []string, offs []int) {
 	e := ms.Equiv
 	if e == "" {
 		e = "none"
+	}
+	if ms.Icpt != "" {
+		e += "+" + ms.Icpt
 	}
 	toks := []string{"mpull", e, fmt.Sprint(len(ms.Subs))}
 	for k, sc := range ms.Subs {
@@ -390,6 +388,10 @@ func genMulti(r *rand.Rand, small bool) multiSession {
 	ms.Ops = genOps(r, ids, vals, nbef+na)
 	if r.Intn(4) == 0 {
 		ms.Equiv = []string{"same", "first"}[r.Intn(2)]
+	}
+	if r.Intn(6) == 0 {
+		ms.Icpt = "lower"
+		ms.Ops = respell(r, ms.Ops)
 	}
 	pvals := append(append([]string{}, vals...), emptyOf(vals[0]))
 	bits := uint(len(ids) * (len(pvals) + 1))
